@@ -100,13 +100,20 @@ TSetInc(op, shift) ==
        THEN l' = l + 1 /\ dead' = dead \cup {"ALL"}
        ELSE Advance(ReadTags("setfreq-phase-jump") \cup IncTags(shift))
 
+\* the wrapped window [wlo, whi] (it may straddle the end of the counter range)
+InWrap == LET lo2 == e.wlo - SetPhaseTol  hi2 == e.whi + SetPhaseTol
+          IN \E k \in {-1, 0, 1} : lo2 <= e.a + k * M /\ e.a + k * M <= hi2
+
 TSetPhase ==
   /\ e.op = "sp"
   /\ PA_SetPhase(IF e.a >= 0 /\ e.a < M THEN e.a ELSE acc)
   /\ IF e.kind # "num"    \* a NaN or infinite phase is outside the documented range ("any finite value")
        THEN l' = l + 1 /\ dead' = dead \cup {"ALL"}
        ELSE Advance(   (IF e.a < 0 \/ e.a >= M THEN {<<"C11", "set-phase-range">>} ELSE {})
-                  \cup (IF e.a < e.lo - SetPhaseTol \/ e.a > e.hi + SetPhaseTol THEN {<<"C11", "set-phase">>} ELSE {})
+                  \* (a negative phase: mirrored as built, or wrapped - wlo / whi - both depend on p modulo 1 only)
+                  \cup (IF (e.a < e.lo - SetPhaseTol \/ e.a > e.hi + SetPhaseTol)
+                          /\ ~(Has(e, "wlo") /\ InWrap)
+                          THEN {<<"C11", "set-phase">>} ELSE {})
                   \cup ReadTags("set-phase"))
 
 TPanic ==
